@@ -63,9 +63,9 @@ func (m *MatchRDP) CaddyModule() caddy.ModuleInfo {
 func (m *MatchRDP) Match(cx *layer4.Connection) (bool, error) {
 	// Replace placeholders in filters
 	repl := cx.Context.Value(caddy.ReplacerCtxKey).(*caddy.Replacer)
-	cookieHash := repl.ReplaceAll(m.CookieHash, "")
+	cookieHash := repl.ReplaceKnown(m.CookieHash, "")
 	cookieHash = cookieHash[:min(RDPCookieHashBytesMax, uint16(len(cookieHash)))]
-	customInfo := repl.ReplaceAll(m.CustomInfo, "")
+	customInfo := repl.ReplaceKnown(m.CustomInfo, "")
 	customInfo = customInfo[:min(RDPCustomInfoBytesMax, uint16(len(customInfo)))]
 
 	// Read a number of bytes to parse headers
